@@ -25,7 +25,9 @@ try:
     # the demo command is written for the agent's worktree: retarget it
     cmd = run_txt.replace("/tmp/seed-%s" % pid, wt).replace("\n", " ")
     m = re.search(r"`([^`]+)`", cmd)
-    if m and not cmd.startswith("From"):
+    if cmd.lstrip().startswith("("):
+        pass            # a complete (sub)shell command line: taken as it is
+    elif m and not cmd.startswith("From"):
         cmd = m.group(1)
     else:
         # strip a prose prefix ("From <dir> (...): ") and trailing remarks ("   (builds ...)", "  # ...")
@@ -42,7 +44,7 @@ try:
         cmd = re.sub(r"\s{2,}[(#].*$", "", cmd).strip()
     # a demo whose command does not copy its test files itself: put every *_test.go of demo/ into the (first) package the
     # go test command names
-    if "cp " not in cmd and "sh " not in cmd and "bash " not in cmd:
+    if "cp " not in cmd and "sh " not in cmd and "bash " not in cmd and not cmd.lstrip().startswith("("):
         m2 = re.search(r"go test .*?(\./[\w/.\-]+)", cmd)
         tests = [f for f in os.listdir(os.path.join(src, "demo")) if f.endswith("_test.go")]
         if m2 and tests:
